@@ -352,11 +352,42 @@ def gen_cases(rng, tier):
     for i in range(300 if quick else 4000):
         big = (i % 40 == 39)
         st, marks, bad = gen_rpc(rng, big)
-        st = st[:150000]      # one chunk must fit the socket buffer of the harness
-        coarse = len(st) > 6000 and quick
+        coarse = len(st) > (6000 if quick else 100000)
         cap = rng.choice([0, 0, 0, 0, 1, 2, 3, 7, 100])
         yield 'rpc %d %s %s %s' % (cap, hx(st), '/'.join(partitions(rng, len(st), marks, coarse or (big and quick), coarse)),
                                    ','.join(hx(b) for b in bad) if bad else '-')
+    # one long-lived channel receiving several large frames (buffer state is carried from message to
+    # message): sizes around 512 kB and 1 MB, in increasing, decreasing and mixed order
+    big_sizes = [524287, 524288, 524289, 600000, 700000, 1048575, 1048576]
+    for i in range(3 if quick else 36):
+        k = rng.choice([2, 2, 3, 4])
+        sizes = [rng.choice(big_sizes) for _ in range(k)]
+        order = i % 3
+        if order == 0:
+            sizes.sort()
+        elif order == 1:
+            sizes.sort(reverse=True)
+        if i == 0:
+            sizes = [600000, 700000]
+        st, marks = [], []
+        for sz in sizes:
+            marks.append(len(st))
+            if rng.random() < 0.4:
+                st += rpc_frame(rpc_body(rng, rng.choice([1, 2, 10]), rng.choice([0, 5, 300])))
+            nbuf = sz - 8                      # 08 TT 10 01 22 <3-byte varint> <buffer>
+            body = [0x08, rng.choice([1, 2, 10]), 0x10, 0x01, 0x22] + varint(nbuf) + [0] * nbuf
+            for _ in range(20):
+                body[8 + rng.randrange(nbuf)] = rng.randrange(256)
+            assert len(body) == sz
+            st += rpc_frame(body)
+        if rng.random() < 0.5:
+            marks.append(len(st))
+            st += rpc_frame(rpc_body(rng, 2, 3))
+        total = len(st)
+        ps = [str(total), part_from_cuts(total, range(65536, total, 65536)),
+              part_from_cuts(total, [rng.randrange(total) for _ in range(5)]),
+              part_from_cuts(total, [m + d for m in marks for d in (2, 4, 5)])]
+        yield 'rpc 0 %s %s -' % (hx(st), '/'.join(ps))
     # syscall-level splitting of one Receive call
     for size in (0, 1, 2, 3, 6):
         for sc in ('-', '1', '1,1', '1,1,1', '2,2,2', '1,2,3', 'I', 'I,1', '1,I,1', 'A', 'E', '0', '1,0,1', '1,A,1',
@@ -374,7 +405,7 @@ def nontrivial(payload, md):
         return not md.get('m0', '0/').startswith('0/') and md.get('s0') != md.get('s1')
     return md.get('m0', '-') != '-' and 'm1' in md and md.get('s0') != md.get('s1')
 
-RULE = ('per protocol (usbpro, robe, opc, acn, rpc; rpc: RpcMessage frames of all types with bodies around the 2 kB initial buffer, empty frames, wrong version, size over 1 MB, unparsable bodies, truncation; acn: blocks of 0-6 PDUs with lengths 2..1000 and 4095/4096/5000/70000, 2- and 3-byte length fields, bad identifier, block length off by -1/+1/+5, length smaller than its field, truncation, noise): streams of 1-30 items drawn from valid frames with payload sizes at '
+RULE = ('per protocol (usbpro, robe, opc, acn, rpc; rpc: RpcMessage frames of all types with bodies around the 2 kB initial buffer, empty frames, wrong version, size over 1 MB, unparsable bodies, truncation; plus histories of 2-4 frames of 512 kB-1 MB (increasing, decreasing, mixed sizes) on one channel under whole / 64 kB / random / header-offset partitions; acn: blocks of 0-6 PDUs with lengths 2..1000 and 4095/4096/5000/70000, 2- and 3-byte length fields, bad identifier, block length off by -1/+1/+5, length smaller than its field, truncation, noise): streams of 1-30 items drawn from valid frames with payload sizes at '
         '0/1/limit-1/limit, wrong end byte / header CRC / data CRC, announced length limit+1..65535, truncated '
         'frames, off-by-one length fields, noise rich in start/end bytes; every stream replayed under 6 '
         'partitions (1-byte, whole, random cuts, a cut at offsets -2..+7 of every item, one single cut near a '
